@@ -99,8 +99,13 @@ def gen_doc(rng):
     body = ''
     for _ in range(rng.randint(0, 2)):
         v = rng.randint(1, 4)
-        body += '<item>%d</item>' % v
-        node(5, None, True, v)
+        if rng.random() < 0.35:
+            # a selected element whose own type is replaced with xsi:type (the field selectors are then built per node)
+            body += '<item xsi:type="xs:token" xmlns:xs="http://www.w3.org/2001/XMLSchema">%d</item>' % v
+            node(5, 3, True, v)
+        else:
+            body += '<item>%d</item>' % v
+            node(5, None, True, v)
     for _ in range(rng.randint(0, 3)):
         body += a_elem()
     if rng.random() < 0.4:
